@@ -65,6 +65,18 @@ def strata(tier):
         {"p": "map", "label": "L"}, {"p": "list", "label": "L"}, {"p": "mol", "label": "L"}, {"p": "map", "key": {"prim": "a"}, "label": "L"},
         {"p": "map", "label": ""}, {"p": "mol", "key": {"prim": "a"}, "label": ""}, {"p": "list", "index": {"prim": 0}, "label": ""},
         {"p": "mol", "key": {"prim": 0}, "index": {"prim": 0}, "label": "zero"},
+        # parts that are *almost* what a primitive denotes: the same key / index test plus one more component
+        {"p": "mol", "key": {"prim": 0}, "index": {"prim": 0}, "value": PC.L("value", "keys_contain", "x")},
+        {"p": "mol", "key": {"prim": 0}, "index": {"prim": 0}, "value": PC.L("value", "truthy")},
+        {"p": "mol", "key": {"prim": 1}, "index": {"prim": 1}, "condition": PC.L("value", "is_instance", {"$type": "dict"})},
+        {"p": "mol", "key": {"prim": 0}, "index": {"prim": 0}, "map_condition": PC.L("key", "truthy")},
+        {"p": "mol", "key": {"prim": 0}, "index": {"prim": 0}, "list_condition": PC.L("index", "less_than", 0)},
+        {"p": "map", "key": {"prim": "a"}, "value": PC.L("value", "falsy")}, {"p": "map", "key": {"prim": "a"}, "value": PC.L("value", "is_instance", {"$type": "str"})},
+        {"p": "map", "key": {"prim": 2.5}, "value": PC.L("value", "null")}, {"p": "map", "key": {"prim": "a"}, "condition": PC.L("value", "truthy")},
+        {"p": "list", "index": {"prim": 0}, "value": PC.L("value", "falsy")},
+        {"p": "map", "key": PC.L("key", "not_equal_to", "a")}, {"p": "map", "key": PC.L("key", "in_", "abc")}, {"p": "map", "key": PC.L("key", "greater_than", "a")},
+        {"p": "mol", "key": PC.L("key", "greater_than", 0), "index": PC.L("index", "greater_than", 0)},
+        {"p": "mol", "key": PC.L("key", "not_equal_to", 0), "index": PC.L("index", "not_equal_to", 0)},
         {"p": "prim", "v": 2.0}, {"p": "prim", "v": 1.0}, {"p": "prim", "v": 0.0}, {"p": "prim", "v": True}, {"p": "prim", "v": "2"},
         {"p": "map", "key": {"prim": 2.0}}, {"p": "map", "key": {"prim": True}},
     ]
